@@ -85,6 +85,11 @@ func c02Bundle(e *env, files []srcFile, entry string, dataSets []data.Map, feats
 		// exec_impl_spec assumes wf_registry; the parser must only produce such trees
 		e.res.Fail(hx.Violation{Kind: "mismatch", What: "the dumped AST is not of the shape exec_impl_spec assumes (wf_registry = false)", Case: progCase{Files: files, Template: entry}, Observed: fmt.Sprint(r)}, "")
 		return
+	} else if len(r) >= 3 {
+		// how much of the bundle the independent expression Spec (Spec/Expr.v) reads: expression roots of_node is defined on
+		cov, tot := atoiHash(r[1]), atoiHash(r[2])
+		e.res.Histogram["expr-roots:total"] += tot
+		e.res.Histogram["expr-roots:by-Spec/Expr.v"] += cov
 	}
 	nontrivial := feats["let"]+feats["foreach"]+feats["for-range"]+feats["call"]+feats["switch"]+feats["if"]+feats["let-content"] > 0
 	for _, d := range dataSets {
@@ -113,7 +118,27 @@ func c02Bundle(e *env, files []srcFile, entry string, dataSets []data.Map, feats
 			e.res.Histogram["skipped:output>1MB"]++
 			continue
 		}
+		// the composed Spec (Spec/CmdIndep.v: commands by Spec/Cmd.v, expressions by C01's Spec/Expr.v) is the
+		// oracle whenever it gives an answer; it leaves the answer open (outofmodel) on inexact floats, int64
+		// overflow and randomInt, where Spec/Cmd.v alone (sharing the operator tables with the model) decides.
+		si := e.m.Call("render_spec_indep", key, sx(entry), c02Fuel, "-", "none", ";", dsx)
 		sr := e.m.Call("render_spec", key, sx(entry), c02Fuel, "-", "none", ";", dsx)
+		if len(si) >= 3 && len(sr) >= 3 {
+			icls := strings.Split(si[0], ",")[0]
+			e.res.Histogram["spec-indep:"+icls]++
+			// specs_agree, re-checked on this case: same bytes and same class unless Spec/Cmd.v ran out of fuel or
+			// the composed Spec leaves the answer open
+			if icls != "outofmodel" && strings.Split(sr[0], ",")[0] != "fuel" {
+				if icls != strings.Split(sr[0], ",")[0] || si[2] != sr[2] {
+					e.res.Fail(hx.Violation{Kind: "mismatch", What: "extracted Spec/Cmd.v and extracted Spec/CmdIndep.v disagree (specs_agree says they cannot)", Case: pc, Expected: si[0] + " " + hx.Q(hx.UnH(si[2])), Observed: sr[0] + " " + hx.Q(hx.UnH(sr[2]))}, "")
+				}
+				e.res.Histogram["oracle:composed-spec"]++
+			} else {
+				e.res.Histogram["oracle:Spec/Cmd.v-only"]++
+			}
+		} else {
+			e.res.Fail(hx.Violation{Kind: "mismatch", What: "composed Spec run failed", Case: pc, Observed: fmt.Sprint(si)}, "")
+		}
 		if len(sr) < 3 {
 			e.res.Fail(hx.Violation{Kind: "mismatch", What: "Spec run failed", Case: pc, Observed: fmt.Sprint(sr)}, "")
 			continue
@@ -212,4 +237,16 @@ func c02Replay(e *env) {
 		}
 	}
 	c02Bundle(e, rp.Case.Files, rp.Case.Template, ds, map[string]int{"let": 1}, true)
+}
+
+// atoiHash reads a "#<int>" field of a model response (0 if malformed).
+func atoiHash(s string) int {
+	n := 0
+	for _, c := range strings.TrimPrefix(s, "#") {
+		if c < '0' || c > '9' {
+			return 0
+		}
+		n = n*10 + int(c-'0')
+	}
+	return n
 }
